@@ -26,7 +26,10 @@ func init() {
 				t = sx("+", t, sx("*", intLit64(int64(mul)), sx("mod", byteK, "256")))
 				mul *= 256
 			}
-			x.assumed["extern encoding/binary byte-order readers: exact little/big-endian value of the first bytes; the panic on a slice shorter than the value read is NOT checked by this extern"] = true
+			if m == 0 {
+				x.readerLenCheck(f, b, len(order), in)
+			}
+			x.assumed["extern encoding/binary byte-order readers: exact little/big-endian value of the first bytes; the panic on a slice shorter than the value read is an index obligation of the caller"] = true
 			return Val{T: t}, true
 		}
 	}
